@@ -1,6 +1,7 @@
 import Gms.Driver.Proto
-import Gms.Driver.MemTableRun
+import Gms.Driver.MemTableDdlRun
 open Gms.Proto
 
-/-- C14: outcome class (ok / ERROR 1062) and table contents after every statement. -/
-def main : IO Unit := runPure (Gms.MemTableRun.handle false)
+/-- C14: outcome class (ok / ERROR 1062) and table contents after every statement; histories may
+interleave schema changes (ADD COLUMN at a position, DROP / RENAME COLUMN, RENAME TABLE). -/
+def main : IO Unit := runPure Gms.MemTableDdlRun.handle
